@@ -449,11 +449,11 @@ def run_relay_check(work, prop, tier, replay=None):
             fails.append(f)
             hist_by_id[f["hid"]] = f["scenario"]
     rconc = None
-    if prop in ("C01", "C07", "C10", "C11") and not replay:
+    if prop in ("C01", "C02", "C07", "C10", "C11") and not replay:
         # lock-grain specification (RelayConc.tla): exhaustive TLC, witnesses of the listed findings forced on the real
         # handlers, generated and random schedules validated by RelayConcTrace
         import relayconc_check
-        rconc = relayconc_check.stage(work, tier, work.seed, variants=(False, True) if prop == "C01" else (False,), witnesses=(prop == "C01"))
+        rconc = relayconc_check.stage(work, tier, work.seed, variants=(False, True) if prop in ("C01", "C02") else (False,), witnesses=(prop == "C01"))
         for f in rconc["fails"]:
             if prop not in relayconc_check.OWNER.get(f["inv"], []):
                 continue
